@@ -93,6 +93,11 @@ func (fr *Frame) callWith(st *State, c *ssa.CallCommon, args []Val, site ssa.Ins
 				fr.vc.ensureKey(gk, k.Sort())
 				st.v[gk] = res.S[i]
 			}
+			// state right after the call: at(Label, expr) in specifications
+			if fr.vc.lastState == nil {
+				fr.vc.lastState = map[string]*State{}
+			}
+			fr.vc.lastState[lab] = st.clone()
 		}
 	}
 	return res
@@ -207,14 +212,8 @@ func (fr *Frame) callWith0(st *State, c *ssa.CallCommon, args []Val, site ssa.In
 		return res
 	}
 	vc.notes["havoc at call to "+key] = true
-	if len(vc.labels) > 0 && !vc.p.mayReachCounted(c, callee, vc.labels) {
-		vc.havocHeap(st)
-	} else {
-		if len(vc.labels) > 0 {
-			vc.notes["call counters forgotten at call to "+key+" (may reach a counted function)"] = true
-		}
-		vc.havocAll(st)
-	}
+	vc.havocHeap(st)
+	vc.forgetReachable(st, c, callee, key)
 	res := vc.freshVal("r."+shortCallee(key), rt)
 	vc.assume(st, vc.wellTyped(st, res))
 	return res
@@ -446,6 +445,32 @@ func (vc *VC) havocAllOpt(st *State, counters bool) {
 	}
 }
 
+// forgetReachable forgets the call-history ghost state of exactly those labels
+// whose counted functions the callee may reach.
+func (vc *VC) forgetReachable(st *State, c *ssa.CallCommon, callee *ssa.Function, key string) {
+	var labs []string
+	for lab := range vc.labels {
+		labs = append(labs, lab)
+	}
+	sort.Strings(labs)
+	for _, lab := range labs {
+		if !vc.p.mayReachCounted(c, callee, map[string]bool{lab: true}) {
+			continue
+		}
+		vc.notes["call history of "+lab+" forgotten at call to "+key+" (may reach a counted function)"] = true
+		k := "g.calls." + lab
+		vc.ensureKey(k, "Int")
+		o := vc.get(st, k)
+		n := vc.havocKey(st, k)
+		vc.assumeRaw(tLe(o, n))
+		for gk := range vc.keySort {
+			if strings.HasPrefix(gk, "g.last."+lab+":") {
+				vc.havocKey(st, gk)
+			}
+		}
+	}
+}
+
 func isHeapKey(k string) bool {
 	return k == "alloc" || k == "MLen" || strings.HasPrefix(k, "MD_") || strings.HasPrefix(k, "MV") ||
 		(len(k) == 2 && k[0] == 'H' && k != "HM") // HM: ghost lock state, kept across unknown calls
@@ -524,10 +549,11 @@ func (fr *Frame) applyContract(st *State, ct *Contract, callee *ssa.Function, si
 	old := st.clone()
 	// havoc the footprint
 	if !ct.HasMod {
-		if len(vc.labels) > 0 && callee != nil && !vc.p.mayReachCounted(nil, callee, vc.labels) {
-			vc.havocHeap(st)
+		vc.havocHeap(st)
+		if callee != nil {
+			vc.forgetReachable(st, nil, callee, ct.Key)
 		} else {
-			vc.havocAll(st)
+			vc.havocAllOpt(st, true)
 		}
 	} else {
 		targets := env.modTargets(ct.Modifies)
@@ -536,6 +562,42 @@ func (fr *Frame) applyContract(st *State, ct *Contract, callee *ssa.Function, si
 		oa := vc.get(st, vc.allocKey())
 		na := vc.havocKey(st, vc.allocKey())
 		vc.assumeRaw(tLe(oa, na))
+	}
+	// objects of preserved types keep their content whatever else is forgotten
+	if len(ct.Preserves) > 0 {
+		oa := vc.get(old, vc.allocKey())
+		var conds []Term
+		for _, tn := range ct.Preserves {
+			// a type that cannot be named from this package is simply not preserved here
+			func() {
+				defer func() {
+					if r := recover(); r != nil {
+						if _, isU := r.(unsupported); !isU {
+							panic(r)
+						}
+					}
+				}()
+				t := env.resolveType(tn)
+				conds = append(conds, tEq(sx("dtype", "r!q"), tInt(int64(vc.p.typeID(t)))))
+			}()
+		}
+		if len(conds) == 0 {
+			conds = append(conds, tFalse)
+		}
+		var keys []string
+		for k := range vc.keySort {
+			if isHeapKey(k) && k != "alloc" {
+				keys = append(keys, k)
+			}
+		}
+		sort.Strings(keys)
+		for _, k := range keys {
+			ho, hn := vc.get(old, k), vc.get(st, k)
+			if ho == hn {
+				continue
+			}
+			vc.assumeRaw(fmt.Sprintf("(forall ((r!q Int)) (! (=> (and (< r!q %s) %s) (= (select %s r!q) (select %s r!q))) :pattern ((select %s r!q))))", oa, tOr(conds...), hn, ho, hn))
+		}
 	}
 	res := vc.freshVal("r."+shortCallee(ct.Key), rt)
 	vc.assume(st, vc.wellTyped(st, res))
@@ -557,7 +619,7 @@ func mentionsCallHistory(x SExpr) bool {
 	walk = func(x SExpr) {
 		switch x := x.(type) {
 		case *SCall:
-			if id, ok := x.Fun.(*SIdent); ok && (id.Name == "calls" || id.Name == "last") {
+			if id, ok := x.Fun.(*SIdent); ok && (id.Name == "calls" || id.Name == "last" || id.Name == "at") {
 				found = true
 			}
 			walk(x.Fun)
@@ -595,7 +657,7 @@ func historyLabels(ct *Contract) map[string]bool {
 	walk = func(x SExpr) {
 		switch x := x.(type) {
 		case *SCall:
-			if id, ok := x.Fun.(*SIdent); ok && (id.Name == "calls" || id.Name == "last") && len(x.Args) == 1 {
+			if id, ok := x.Fun.(*SIdent); ok && (id.Name == "calls" || id.Name == "last" || id.Name == "at") && len(x.Args) >= 1 {
 				if l, ok := x.Args[0].(*SIdent); ok {
 					out[l.Name] = true
 				}
@@ -1114,13 +1176,11 @@ func (fr *Frame) loopHead(st *State, li *loopInfo) {
 	}
 	oldAlloc := vc.get(st, vc.allocKey())
 	if eff.heapAll {
-		vc.havocAll(st)
-		for k := range vc.keySort {
-			if strings.HasPrefix(k, "g.") && !strings.HasPrefix(k, "g.calls.") {
-				o := vc.get(st, k)
-				n := vc.havocKey(st, k)
-				vc.assumeRaw(tLe(o, n))
-			}
+		vc.havocHeap(st)
+		if vc.keySort["g.clock"] != "" {
+			o := vc.get(st, "g.clock")
+			n := vc.havocKey(st, "g.clock")
+			vc.assumeRaw(tLe(o, n))
 		}
 	} else {
 		var ks []string
@@ -1140,12 +1200,25 @@ func (fr *Frame) loopHead(st *State, li *loopInfo) {
 		for _, g := range vc.frameGoalSkip(pre, st, eff.targets, eff.unresolved) {
 			vc.assume(st, g.goal)
 		}
+	}
+	// call-history ghost state touched by the loop (counters and last results)
+	{
+		seenLab := map[string]bool{}
 		for _, lab := range eff.counters {
+			if seenLab[lab] {
+				continue
+			}
+			seenLab[lab] = true
 			k := "g.calls." + lab
 			vc.ensureKey(k, "Int")
 			o := vc.get(st, k)
 			n := vc.havocKey(st, k)
 			vc.assumeRaw(tLe(o, n))
+			for gk := range vc.keySort {
+				if strings.HasPrefix(gk, "g.last."+lab+":") {
+					vc.havocKey(st, gk)
+				}
+			}
 		}
 	}
 	// 3. assume frame and invariants for an arbitrary iteration
